@@ -743,7 +743,7 @@ func c20Mix(run *common.Run, scratch string) {
 					continue
 				}
 				_ = os.WriteFile(ch.journal, []byte(fmt.Sprintf("mix round %d engine %s\n", round, engine)), 0o666)
-				scenario := round % 4
+				scenario := round % 5
 				if engine == "btree" && scenario == 1 && run.KnownOpen("KF06") {
 					scenario = 0 // KF06: row deletions under a streaming scan kill the btree engine; canary reproduces it
 				}
@@ -787,6 +787,18 @@ func c20MixRound(run *common.Run, ch *c20Child, round int, scenario int) (int, s
 		entries = append(entries, drive.Entry{Key: fmt.Sprintf("a%05d", i), Muts: muts})
 	}
 	drive.MutateRows(s.Data, tname, entries)
+	if scenario == 4 {
+		// a table of ~12 MB: more than the storage engine keeps in its write buffer, so scans read from flushed table
+		// files while the table is cleared under them
+		big := strings.Repeat(gen.BigVal, 2)
+		for b := 0; b < 4; b++ {
+			entries = entries[:0]
+			for i := 0; i < 450; i++ {
+				entries = append(entries, drive.Entry{Key: fmt.Sprintf("b%d-%05d", b, i), Muts: []model.Mut{{Kind: model.SetCell, Fam: "f2", Qual: "big", TS: 1000, Val: big}}})
+			}
+			drive.MutateRows(s.Data, tname, entries)
+		}
+	}
 	var hang atomic.Value
 	var kindsSeen sync.Map
 	var wg sync.WaitGroup
@@ -892,6 +904,25 @@ func c20MixRound(run *common.Run, ch *c20Child, round int, scenario int) (int, s
 			var es []*btpb.MutateRowsRequest_Entry
 			for i := 0; i < 1200; i++ {
 				es = append(es, &btpb.MutateRowsRequest_Entry{RowKey: []byte(fmt.Sprintf("a%05d", i)), Mutations: drive.MutsToProto([]model.Mut{{Kind: model.SetCell, Fam: "f1", Qual: "q", TS: 1000, Val: "v"}})})
+			}
+			if st, e := data.MutateRows(ctx, &btpb.MutateRowsRequest{TableName: tname, Entries: es}); e == nil {
+				for {
+					if _, e := st.Recv(); e != nil {
+						break
+					}
+				}
+			}
+			return err
+		})
+	case 4: // delete-all while scans stream a table that is larger than the engine's write buffer
+		worker("dropall-big", func(ctx context.Context, data btpb.BigtableClient, admin btapb.BigtableTableAdminClient, n int) error {
+			time.Sleep(time.Duration(5+n%20) * time.Millisecond) // let scans get going; not a verdict
+			_, err := admin.DropRowRange(ctx, &btapb.DropRowRangeRequest{Name: tname, Target: &btapb.DropRowRangeRequest_DeleteAllDataFromTable{DeleteAllDataFromTable: true}})
+			// refill beyond the write buffer again
+			big := strings.Repeat(gen.BigVal, 2)
+			var es []*btpb.MutateRowsRequest_Entry
+			for i := 0; i < 900; i++ {
+				es = append(es, &btpb.MutateRowsRequest_Entry{RowKey: []byte(fmt.Sprintf("b0-%05d", i)), Mutations: drive.MutsToProto([]model.Mut{{Kind: model.SetCell, Fam: "f2", Qual: "big", TS: 1000, Val: big}})})
 			}
 			if st, e := data.MutateRows(ctx, &btpb.MutateRowsRequest{TableName: tname, Entries: es}); e == nil {
 				for {
